@@ -103,7 +103,9 @@ def run_case(case, ctx):
         if call == 2:
             # between the second and the third call the SAME Hamiltonian object is modified in place (rescaled first tensor):
             # the third call must conserve the energy of the modified operator
-            H.A[0] *= 1.5
+            # (conjugation of site 0 by a diagonal phase matrix: Hermitian, charge preserving, and not proportional to the old operator)
+            ph = np.exp(1j * np.linspace(0.3, 1.7, H.A[0].shape[0]))
+            H.A[0] *= (ph[:, None] * ph.conj()[None, :])[:, :, None, None]
             Hd = dense.mpo_to_matrix(H.A)
             hb = ec.mpo_bytes(H)
             e0 = energy(dense.mps_to_vector(psi.A), Hd).real
